@@ -4,7 +4,7 @@
 # runs the quick checks against that build and reports, per source file of /repo, the functions no
 # check ever executed.  Output: /dev/shm/cov/report.txt and /dev/shm/cov/uncovered.txt
 set -u
-ids="${@:-C01 C02 C03 C04 C05 C06 C07 C08 C09 C10 C11 C12 C13 C14 C15 C16 C17 C18 C19 C20 X01 X02 X04}"
+ids="${@:-C01 C02 C03 C04 C05 C06 C07 C08 C09 C10 C11 C12 C13 C14 C15 C16 C17 C18 C19 C20 X01 X02 X04 X05}"
 T=/dev/shm/cov-target; C=/dev/shm/cov
 LLVM=$(dirname $(find ~/.rustup/toolchains/nightly-x86_64-unknown-linux-gnu -name llvm-profdata | head -1))
 rm -rf $C; mkdir -p $C; chmod 1777 $C
